@@ -17,7 +17,7 @@ RULE = ("kind 'scatter': a random System of 4-9 contributions drawn from rigid b
 ASSUMPTIONS = ["dense reference assembly written independently of cardillo/system.py: loops over system.contributions and adds local results at the contribution's own DOF arrays",
                "systems are assembled with compute_consistent_initial_conditions=False (C16 covers the initial conditions)",
                "equality up to summation rounding 1e-12*(1+|value|)"]
-REQUIRED_MONITORS = ["scatter.compare", "partition", "reassemble", "registry.step"]
+REQUIRED_MONITORS = ["scatter.compare", "partition", "reassemble", "recompose.compare", "registry.step"]
 META = {
     "level_text": "Exploration: shadow-state monitors on the real System: a dense reference assembler over random systems, partition and re-assembly snapshots, and a registry model over random add/remove histories. Held on the systems and histories generated.",
     "level_note": "reference = independent dense scatter-sum; consistent initial conditions disabled in the scatter part.",
@@ -336,8 +336,83 @@ def run_scatter(spec, ctx):
                             continue
                         if a.shape != b.shape or np.abs(a - b).max(initial=0.0) > 1e-12 * (1 + np.abs(a).max(initial=0.0)):
                             ctx.violation(f"System.{name}", "evaluation changes after a second assemble()", {"composition": comp, "method": name})
+        # ---- composition changes between assemblies: the scatter must follow the CURRENT contributions
+        _recompose(ctx, S, comp, rng)
     ctx.sig(["scatter", comp, S.q0.tolist()[:8]], nontrivial=shared)
     ctx.sample({"kind": "scatter", "composition": comp, "nq": S.nq, "nu": S.nu, "nla_g": S.nla_g, "nla_c": S.nla_c, "nla_N": S.nla_N})
+
+
+def _compare_stage(ctx, S, comp, rng, stage):
+    """dense reference assembly of every system-level quantity at one random state; stage names the history so far"""
+    S.reset()
+    t = S.t0 + float(rng.normal())
+    q, u, ud, _ = gen.random_system_state(rng, S, perturb=0.3)
+    lam = {"la_g": rng.normal(size=S.nla_g), "la_c": rng.normal(size=S.nla_c), "la_N": rng.normal(size=S.nla_N), "la_F": rng.normal(size=S.nla_F)}
+    try:
+        got = _evaluate_all(S, t, q, u, ud, lam)
+    except Exception as e:
+        ctx.violation("System", "evaluation of a re-composed and re-assembled system raises", {"composition": comp, "stage": stage, "error": f"{type(e).__name__}: {e}"[:300]})
+        return
+    for name in list(VEC) + list(MAT):
+        if isinstance(got[name], str):
+            continue
+        spec_ = VEC.get(name) or MAT[name]
+        try:
+            S.reset()
+            ref, nc = _reference(S, name, spec_, t, q, u, ud, lam, name in MAT)
+        except NotImplementedError:
+            continue
+        ctx.mon("recompose.compare")
+        g = np.asarray(got[name], dtype=float)
+        if g.shape != ref.shape or np.abs(g - ref).max(initial=0.0) > 1e-12 * (1 + np.abs(ref).max(initial=0.0)):
+            ctx.violation(f"System.{name}", "after a change of the composition and a new assemble() the system-level quantity differs from the dense scatter-sum of the current contributions",
+                          {"composition": comp, "stage": stage, "max_abs_err": float(np.abs(g - ref).max(initial=0.0)) if g.shape == ref.shape else "shape",
+                           "shape": list(g.shape), "ref_shape": list(ref.shape)})
+
+
+def _recompose(ctx, S, comp, rng):
+    """history: add a free body / swap it for a different one of the same size / add, swap and remove a compliance-form spring /
+    move a body to the end - each followed by assemble() and the dense comparison"""
+    from cardillo.discrete import RigidBody, PointMass
+    from cardillo.interactions import TwoPointInteraction
+    from cardillo.force_laws import Spring
+
+    def body(name, rigid=True):
+        if rigid:
+            q0, u0, _, _ = gen.rigid_body_state(rng, unit=True)
+            return RigidBody(float(loguniform(rng, 0.1, 1e3)), gen.random_spd(rng) * float(loguniform(rng, 0.1, 1e3)), q0=q0, u0=u0, name=name)
+        return PointMass(float(loguniform(rng, 0.1, 1e3)), q0=rng.normal(size=3), u0=rng.normal(size=3), name=name)
+
+    def step(stage, fn):
+        ctx.cls(f"recompose:{stage.split(':')[0]}")
+        try:
+            fn()
+            S.assemble(options=gen.no_cic_options())
+        except Exception as e:
+            ctx.mon("recompose.compare")
+            ctx.violation("System.assemble", "valid change of the composition followed by assemble() raises", {"composition": comp, "stage": stage, "error": f"{type(e).__name__}: {e}"[:300]})
+            return False
+        _compare_stage(ctx, S, comp, rng, stage)
+        return True
+
+    rigid = bool(rng.random() < 0.7)
+    A, B, C = body("extraA", rigid), body("extraB", rigid), body("extraC", not rigid)
+    if not step("add_body", lambda: S.add(A)):
+        return
+    if not step("swap_body_same_size", lambda: (S.remove(A), S.add(B))):
+        return
+    k1, k2 = float(loguniform(rng, 1, 1e3)), float(loguniform(rng, 1, 1e3))
+    sp1 = Spring(TwoPointInteraction(S.origin, B), k1, l_ref=1.0, compliance_form=True, name="extra_spring1")
+    sp2 = Spring(TwoPointInteraction(S.origin, B), k2, l_ref=0.5, compliance_form=True, name="extra_spring2")
+    if not step("add_compliance_spring", lambda: S.add(sp1.subsystem, sp1)):
+        return
+    if not step("swap_compliance_spring", lambda: (S.remove(sp1), S.remove(sp1.subsystem), S.add(sp2.subsystem, sp2))):
+        return
+    if not step("add_other_body", lambda: S.add(C)):
+        return
+    if not step("move_body_to_end", lambda: (S.remove(sp2), S.remove(sp2.subsystem), S.remove(B), S.add(B))):
+        return
+    step("remove_bodies", lambda: (S.remove(B), S.remove(C)))
 
 
 class _Dummy:
